@@ -208,6 +208,7 @@ def obligations(ctx):
     if missing:
         ob.fail("types expected to be covered could not be executed: %s" % {t: skipped.get(t, "?") for t in missing})
     ob.finish(agg)
+    plutus_data_dispatch(ctx)
 
 
 # ---------------------------------------------------------------- generic token-level round trip of struct-level codecs
@@ -397,3 +398,87 @@ def generic_roundtrip(ctx, tys, name, claim=None):
     ob.expected_covered = covered
     ob.per_type = per_type
     return ob, agg, covered, skipped
+
+
+# ---------------------------------------------------------------- Plutus data: the trial-and-seek-back dispatcher returns the variant that was written
+def plutus_data_dispatch(ctx):
+    """PlutusDataEnum is decoded by trying constructor / map / list / integer / bytes in turn and seeking back after each failed
+    attempt.  For every token shape the library itself writes for a Plutus datum the dispatcher must return the variant that was
+    written and consume exactly that item: unsigned / negative integers, tag-2 / tag-3 big integers, byte strings, empty and
+    non-empty lists, maps, compact and general constructor forms.  ConstrPlutusData / PlutusMap / PlutusList decoders are executed
+    from their MIR (nested data are opaque items); BigInt's decoder is a grammar stub (uint | nint | tag 2 bytes | tag 3 bytes)
+    and read_bounded_bytes accepts one bytes token."""
+    P = ctx.P
+    ob = Obligation(ctx, "c01_e2_plutus_data_variant_dispatch", "11 token shapes the library writes for a datum (integers: uint / nint / tag 2 / tag 3; bytes; lists; maps; constructors compact and general); nested data opaque",
+                    ["<PlutusDataEnum as Deserialize>::deserialize", "<ConstrPlutusData as Deserialize>::deserialize", "<PlutusMap as Deserialize>::deserialize", "<PlutusList as Deserialize>::deserialize"],
+                    fallback_native="e2n_c01_plutus_variants")
+    agg = Engine(P)
+    U = agg.U
+    item = lambda k: ("item", z3.Const("nested%d" % k, U), "PlutusData")
+    x = z3.Int("int_arg")
+    shapes = [
+        ("unsigned integer", [("uint", x)], "Integer"),
+        ("negative integer", [("nint", x)], "Integer"),
+        ("big integer, tag 2", [("tag", 2), ("bytes", z3.Const("magnitude", U))], "Integer"),
+        ("big integer, tag 3", [("tag", 3), ("bytes", z3.Const("magnitude", U))], "Integer"),
+        ("byte string", [("bytes", z3.Const("payload", U))], "Bytes"),
+        ("empty list", [("array", 0)], "List"),
+        ("list of 2 (indefinite)", [("array", None), item(0), item(1), ("special", "Break", None)], "List"),
+        ("empty map", [("map", 0)], "Map"),
+        ("map of 1", [("map", 1), item(0), item(1)], "Map"),
+        ("constructor 0, compact form", [("tag", 121), ("array", 0)], "ConstrPlutusData"),
+        ("constructor 200, general form", [("tag", 102), ("array", 2), ("uint", z3.IntVal(200)), ("array", 0)], "ConstrPlutusData"),
+    ]
+    n = 0
+    for what, toks, want in shapes:
+        E = Engine(P, max_loop=8)
+        E.U = U
+        CM.install(E, inline_types=("ConstrPlutusData", "PlutusMap", "PlutusList"), target="PlutusDataEnum")
+        def bigint(E_, c, args):
+            d = VM.deref(E_, args[0])
+            if not isinstance(d, CM.VDe):
+                return NotImplemented
+            t = d.tokens[d.pos] if d.pos < len(d.tokens) else None
+            if t is not None and t[0] in ("uint", "nint"):
+                d.pos += 1
+                return VEnum("Result", "Ok", [VOpaque("bigint")])
+            if t is not None and t[0] == "tag" and t[1] in (2, 3) and d.pos + 1 < len(d.tokens) and d.tokens[d.pos + 1][0] == "bytes":
+                d.pos += 2
+                return VEnum("Result", "Ok", [VOpaque("bigint")])
+            return VEnum("Result", "Err", [VOpaque("err:bigint")])
+        E.extra_intrinsics[r"<(\w+::)*BigInt as (\w+::)*Deserialize>::deserialize$"] = bigint
+        def rbb(E_, c, args):
+            d = VM.deref(E_, args[0])
+            if not isinstance(d, CM.VDe):
+                return NotImplemented
+            t = d.tokens[d.pos] if d.pos < len(d.tokens) else None
+            if t is None or t[0] != "bytes":
+                return VEnum("Result", "Err", [VOpaque("err:bytes")])
+            d.pos += 1
+            return VEnum("Result", "Ok", [VOpaque("bytes", [], t[1])])
+        E.extra_intrinsics[r"(^|::)read_bounded_bytes::<.*>$"] = rbb
+        E.base = [z3.And(x >= 0, x <= (1 << 64) - 1)]
+        SENT = ("uint", z3.IntVal(424242))
+        try:
+            outs = E.explore("<PlutusDataEnum as Deserialize>::deserialize", lambda toks=toks: [R(CM.VDe(list(toks) + [SENT]), "raw")], max_paths=200)
+        except Unsupported as e:
+            ob.fail("%s: the dispatcher cannot be executed (%s)" % (what, str(e)[:200])); continue
+        for o in outs:
+            if o.kind == "bound":
+                ob.fail("%s: loop bound" % what); continue
+            if o.kind != "return":
+                ob.vc("%s: no panic (%s %s)" % (what, o.kind, o.msg[:80]), o.pc, z3.BoolVal(False)); continue
+            n += 1
+            if o.value.variant != "Ok":
+                ob.violation("%s: the library's own encoding is refused by the Plutus data decoder" % what); continue
+            v = VM.deref(E, o.value.fields[0])
+            got = v.variant if isinstance(v, VEnum) else repr(v)
+            if got != want:
+                ob.violation("%s: decoded as %s instead of %s" % (what, got, want)); continue
+            de = VM.deref(E, o.args[0])
+            if de.pos != len(toks):
+                ob.violation("%s: the decoder stops at token %d of %d" % (what, de.pos, len(toks)))
+        agg.stats["paths"] += E.stats["paths"]; agg.stats["feasibility_queries"] += E.stats["feasibility_queries"]; agg.stats["functions"] |= E.stats["functions"]
+    if n < len(shapes):
+        ob.fail("only %d of %d shapes returned" % (n, len(shapes)))
+    ob.finish(agg, lambda m, info=None: ("e2n_c01_plutus_variants", []))
